@@ -1,3 +1,4 @@
+pub mod packed;
 pub mod prefilter;
 pub mod repr;
 pub mod semantic;
@@ -16,6 +17,8 @@ pub fn all() -> Vec<&'static PropDef> {
         &repr::C16,
         &prefilter::C05,
         &prefilter::C10,
+        &packed::C06,
+        &packed::C15,
     ]
 }
 
